@@ -147,7 +147,9 @@ impl Drop for Guard {
             let mut g = lock();
             let s = g.as_mut().unwrap();
             match t {
-                Tid::Job(k) => s.jobs[k] = Some(St::Done),
+                // a job counts as finished when it drops its clone of the sender (see `STx::drop`): the closure's
+                // captured sender is dropped after its locals, so finishing here would leave that drop uncontrolled
+                Tid::Job(_) => return,
                 Tid::Out => s.out = St::Done,
                 Tid::Main => {}
             }
@@ -405,6 +407,11 @@ impl<T> Drop for STx<T> {
         let mut g = lock();
         let s = g.as_mut().unwrap();
         s.senders = s.senders.saturating_sub(1);
+        if let Some(Tid::Job(k)) = TID.with(|t| t.get()) {
+            if k < s.jobs.len() {
+                s.jobs[k] = Some(St::Done);
+            }
+        }
         // the output thread may be waiting for exactly this
         if s.out == St::Waiting(false) && s.senders == 0 {
             s.out = St::Waiting(true);
